@@ -3,9 +3,9 @@
    Vocabulary (IterProofs): [ri_abs r] = the integers a RangeInclusive still has to yield; [ri_wf hi r] = its
    bounds are values of the element type while items remain; [deque_run ops L] = the outputs of the reference
    double-ended queue over the item list L; [deque_ok L outs] = partition / exact len / fused (see there). *)
-From JV Require Import Sem Gen.
+From JV Require Import Sem Gen Spec SpecX.
 From JV.Hand Require Import Iter.
-From JV.Proofs Require Import IterProofs.
+From JV.Proofs Require Import IterProofs IterCore.
 Import List ListNotations.
 Open Scope Z_scope.
 
@@ -92,3 +92,43 @@ Example C17_dates_nonvacuous :
   (forall k, 16 <= k <= 31 -> exists d, MonthShape_nth_date ex_first_month k = Ret (Some d)) /\
   (forall k, 1 <= k < 16 \/ 31 < k <= 31 -> MonthShape_nth_date ex_first_month k = Ret None).
 Proof. exact ex_dates_hyps. Qed.
+
+(* ---- the same with the hypotheses discharged by the core development: for EVERY calendar a user can hold, EVERY
+   32-bit year and EVERY month whose shape is present, and EVERY operation sequence.
+   [days_list c y m]  = the existing days of the month, ascending;
+   [dates_list c y m] = the calendar's dates for those days whose day number is a 32-bit number, ascending
+                        ([month_base c y m] is the day number of the month's first date). *)
+Theorem C17_days_all : forall c y m s, ValidCal c -> in_i32 y -> Calendar_month_shape (cal_of c) y m = Ret (Some s) ->
+  forall ops, days_run ops s = Ret (deque_run ops (days_list c y m)) /\ deque_ok (days_list c y m) (deque_run ops (days_list c y m)).
+Proof. exact days_all. Qed.
+Print Assumptions C17_days_all.
+
+Theorem C17_dates_all : forall c y m s, ValidCal c -> in_i32 y -> Calendar_month_shape (cal_of c) y m = Ret (Some s) ->
+  forall ops, dates_run ops s = Ret (deque_run ops (dates_list c y m)) /\ deque_ok (dates_list c y m) (deque_run ops (dates_list c y m)).
+Proof. exact dates_all. Qed.
+Print Assumptions C17_dates_all.
+
+Theorem C17_dates_new_all : forall c y m s, ValidCal c -> in_i32 y -> Calendar_month_shape (cal_of c) y m = Ret (Some s) ->
+  dates_new s = Ret (mkDates s (mkRange (dates_lo c y m) (dates_hi c y m) false)).
+Proof. exact dates_new_all. Qed.
+Print Assumptions C17_dates_new_all.
+
+Theorem C17_days_list_meaning : forall c y m, ValidCal c -> 0 < month_count c y (Month_discr m) ->
+  (forall d, In d (days_list c y m) <-> InCal c y (Month_discr m) d) /\
+  (forall i k, nth_error (days_list c y m) i = Some k -> forall i' k', nth_error (days_list c y m) i' = Some k' -> (i < i')%nat -> k < k') /\
+  Z.of_nat (length (days_list c y m)) = month_count c y (Month_discr m).
+Proof. exact days_list_meaning. Qed.
+Print Assumptions C17_days_list_meaning.
+
+Theorem C17_dates_list_meaning : forall c y m, ValidCal c -> 0 < month_count c y (Month_discr m) ->
+  forall x, In x (dates_list c y m) <->
+    exists k, 1 <= k <= month_count c y (Month_discr m) /\ in_i32 (month_base c y m + k - 1) /\ x = date_of c (month_base c y m + k - 1).
+Proof. exact dates_list_meaning. Qed.
+Print Assumptions C17_dates_list_meaning.
+
+(* October 1582: 21 days, 1..4 then 15..31; the first month of the supported range keeps only its last 16 days *)
+Example C17_all_ex :
+  days_list (CR 2299161) 1582 Month_October = [1; 2; 3; 4; 15; 16; 17; 18; 19; 20; 21; 22; 23; 24; 25; 26; 27; 28; 29; 30; 31] /\
+  map Date_f_day (dates_list CJ (-5884202) Month_March) = [16; 17; 18; 19; 20; 21; 22; 23; 24; 25; 26; 27; 28; 29; 30; 31] /\
+  month_base CJ (-5884202) Month_March + 16 - 1 = -2147483648.
+Proof. repeat split; vm_compute; reflexivity. Qed.
